@@ -115,6 +115,20 @@ HARNESSES = [
          bound="block size 2 bytes, 6 blocks; scaled cache geometry (4 entries, direct threshold 2: hook H1); all cache entries "
                "symbolic under Inv (dirty entries allowed); one operation, count concrete per query in {1,2,3,-3}, "
                "block/offset/length/data symbolic; regular file or block device per query"),
+    dict(name="close_dirty", src="close_dirty.c",
+         extra_src=["lib/ext2fs/closefs.c", "lib/ext2fs/blknum.c"],
+         funcs=["ext2fs_close2", "ext2fs_flush2", "write_primary_superblock", "unix_open", "unix_write_blk64",
+                "flush_cached_blocks", "raw_write_blk"],
+         configs=[{"E2FSPROGS_VERIF_CACHE_SIZE": 4, "E2FSPROGS_VERIF_WRITE_DIRECT_SIZE": 2},
+                  {"E2FSPROGS_VERIF_CACHE_SIZE": 4, "E2FSPROGS_VERIF_WRITE_DIRECT_SIZE": 2, "ORIG": None}],
+         unwind=6, unwindset=["main.%d:514" % i for i in range(6)] +
+                             ["strlen.0:3", "strcpy.0:3", "alloc_cache.0:9", "free_cache.0:9",
+                              "write_primary_superblock.0:514", "write_primary_superblock.1:514",
+                              "write_primary_superblock.2:514",
+                              "test_root.0:6", "raw_write_blk.0:2", "raw_write_blk.1:2"],
+         backends=["default", "kissat"],
+         bound="1 group, 1 KiB blocks, plain features (sparse_super only), scaled cache geometry (4 entries), cache empty before close; "
+               "fs->flags (minus RW, DIRTY forced on), close flags, s_state symbolic; shadow superblock absent, equal, or differing in one symbolic word"),
 ]
 MANIFEST = {
     "text": "Library-level slice, bounded-exhaustive over the flag word: for every value of fs->flags without EXT2_FLAG_RW the "
